@@ -361,12 +361,14 @@ def r03f(ck, prog, cg):
 
 def run(ck, progs):
     describe(ck)
+    ck.rule("R03g", "distinct FASTA headers stay distinct names: read_fasta copies the whole header line (= R01l), so the (length, name) key of the canonical sort has no input-order ties")
     ck.rule("R03f", "every loop over msa->sequences that runs before the canonical sort covers all numseq records (no prefix of the input order is singled out)")
     for cfg, prog in progs.items():
         cg = CallGraph(prog)
         ck.attempt(r03a, ck, prog)
         ck.attempt(r03b, ck, prog)
         sub_before = len(ck.instances)
+        ck.borrow(c01.r01l, prog, "R03g", ("R01l",))
         ck.attempt(c01.r01b, ck, prog)
         for i in ck.instances[sub_before:]:
             i["rule"] = "R03c"
